@@ -162,10 +162,20 @@ fn unknown_types(subj: Subj) -> Vec<u64> {
     v
 }
 
-fn payloads() -> Vec<Vec<u8>> {
+fn payloads(deep: bool) -> Vec<Vec<u8>> {
     let mut v: Vec<Vec<u8>> = vec![];
     for len in [0usize, 1, 2, 7, 63, 64, 4096] {
         v.push(vec![0u8; len]);
+    }
+    if deep {
+        // every length up to 300 (crossing the 1- to 2-byte length varint and any internal scratch buffer of up to
+        // 256 bytes), the frame cap and its neighbours; contents that are all frame-type look-alikes
+        for len in (3..=300usize).chain([511, 512, 513, 1023, 1024, 1025, 4095]) {
+            if ![7usize, 63, 64].contains(&len) {
+                v.push(vec![0u8; len]);
+            }
+            v.push((0..len).map(|i| [0x00u8, 0x01, 0x04, 0x41, 0x40][i % 5]).collect());
+        }
     }
     v.push(rc::frame_encode(0x04, &rc::settings_payload(&[(0x33, 1)])));
     v.push(rc::wt_signal_encode(0));
@@ -198,12 +208,12 @@ pub fn run(args: &Args) -> i32 {
         "metamorphic: baseline frame sequence per reader (control: SETTINGS, GREASE; request: HEADERS, DATA; session: DATA(unknown capsule), DATA(close capsule)) with 1..3 inserted elements at every position; element = frame of an unassigned type (4 values in 1/2/4/8-byte encodings; on the control stream also CANCEL_PUSH, GOAWAY, MAX_PUSH_ID) or GREASE type in every varint length, with payload length 0,1,2,7,63,64,4096 or a payload that is itself a serialized SETTINGS frame / WT signal / HEADERS / `04 00` / `01 00`; three read paths; plus unknown / GREASE setting ids at every position of a SETTINGS payload and unknown capsule types; distinct by construction; non-trivial = at least one insertion (all)",
     );
     rep.assume("domain: skipped frames with a payload of at most 4096 bytes (the reader's documented frame cap applies to every frame)");
-    let thorough = args.tier == Tier::Thorough;
+    let thorough = args.tier >= Tier::Thorough;
     let mut cases: Vec<(Subj, Vec<usize>, Vec<Elem>)> = vec![];
     for subj in [Subj::Control, Subj::BiRemote, Subj::BiLocal, Subj::Session] {
         let n = baseline(subj).len();
         let types = unknown_types(subj);
-        let pls = payloads();
+        let pls = payloads(args.tier >= Tier::Deep);
         // one insertion: full product
         for p in 0..=n {
             for &t in &types {
